@@ -17,32 +17,6 @@ import AHP.Lemmas.Search
 namespace AHP.C06
 open AHP
 
-/-! #### scopes -/
-
-/-- The scope of a parser-level search after `_handleRootArg`. -/
-def parserScope (root : Node) : Option Node → List Node
-  | none => root.preorder
-  | some r => if r.uid == root.uid then root.preorder else r.desc
-
-/-- The element `_handleRootArg` hands to the scan. -/
-def scanRoot (root : Node) (arg : Option Node) : Node := (handleRootArg root arg).1
-
-theorem handleRootArg_cases (root : Node) (arg : Option Node) :
-    (handleRootArg root arg = (root, true) ∧ parserScope root arg = root.preorder) ∨
-    (∃ r, arg = some r ∧ handleRootArg root arg = (r, false) ∧ parserScope root arg = r.desc) := by
-  cases arg with
-  | none => exact Or.inl ⟨rfl, rfl⟩
-  | some r =>
-    by_cases h : (r.uid == root.uid) = true
-    · exact Or.inl ⟨by simp [handleRootArg, h], by simp [parserScope, h]⟩
-    · exact Or.inr ⟨r, rfl, by simp [handleRootArg, h], by simp [parserScope, h]⟩
-
-/-- Every element of a document with distinct ids has distinct ids below it (so `root=` arguments taken
-    from the document satisfy the hypothesis of the parser theorems). -/
-theorem distinct_of_mem {root : Node} (h : root.Distinct) : ∀ r ∈ root.preorder, r.Distinct := by
-  intro r hr
-  exact uids_nodup_of_sublist (preorder_sublist_of_mem root r hr) h
-
 /-! #### C06a — parser and element forms: the recursive scan is the filter of the scope -/
 
 /-- Generic parser form (`getElementsByTagName`, `ByAttr`, `CustomFilter` use the same test on the root
@@ -54,16 +28,6 @@ theorem parser_scan (p : Elem → Bool) (root : Node) (arg : Option Node)
   · rw [h2]; simp only [scanRoot, h1] at h ⊢; exact scanP_root p h
   · rw [h2]; simp only [scanRoot, h1] at h ⊢
     rw [scanP_items p p false h]; simp
-
-/-- Parser forms whose root test reads the dot-access value (`root.name`, `root.id`): same answer for
-    non-empty searched values. -/
-theorem pDot_eq_pAttr (a q : Str) (hq : q ≠ []) (e : Elem) : pDot a q e = pAttr a q e := by
-  simp only [pDot, pAttr, Elem.attrOr]
-  cases h : e.attr a with
-  | none =>
-    simp only [Option.getD_none]
-    simpa using hq
-  | some v => simp
 
 theorem parser_scan_dot (a q : Str) (hq : q ≠ []) (root : Node) (arg : Option Node)
     (h : (scanRoot root arg).Distinct) :
@@ -184,25 +148,6 @@ theorem allClasses_perm {ns ms : List Str} (h : ns.Perm ms) (e : Elem) : pAllCla
 
 theorem allClasses_dup (c : Str) (ns : List Str) (e : Elem) : pAllClasses (c :: c :: ns) e = pAllClasses (c :: ns) e :=
   allClasses_set _ _ (by intro x; simp) e
-
-/-- The parser/element forms compute "first name by the scan, the other names by a filter over the
-    result": that is "all names". -/
-theorem first_then_rest (c : Str) (rest : List Str) (xs : List Node) :
-    (if rest.isEmpty then fil (pClass c) xs else (fil (pClass c) xs).filter (fun n => pAllClasses rest n.elem))
-      = fil (pAllClasses (c :: rest)) xs := by
-  have : (fil (pClass c) xs).filter (fun n => pAllClasses rest n.elem) = fil (pAllClasses (c :: rest)) xs := by
-    simp only [fil, List.filter_filter]
-    apply List.filter_congr
-    intro n _
-    simp [pAllClasses, pClass, Bool.and_comm]
-  split
-  · rename_i hr
-    have : rest = [] := by simpa using hr
-    subst this
-    apply fil_congr
-    intro n _
-    simp [pAllClasses, pClass]
-  · exact this
 
 /-- `getElementsByClassName` with the names `c :: rest` (what `classWords` made of the query string):
     exactly the elements of the scope carrying all of them. -/
